@@ -57,6 +57,9 @@ def run(prog, R, tier="quick", only_rule=None):
     c08d(prog, R)
     c08e(prog, R)
     c08f(prog, R)
+    # a blob file that still holds live bytes is never judged dead (a pointer into it would dangle)
+    from rules.props import c09
+    c09.dead_rule_shared(prog, R, "C08.g")
 
 
 def c08a(prog, R):
